@@ -52,6 +52,7 @@ ENTRIES = {
     "data": ("p/data.txt", "hello\n"), "dotted": ("p/a.b.py", "u = 1\n"), "pkgutil-ns": ("p/__init__.py", "__path__ = __import__('pkgutil').extend_path(__path__, __name__)\n"),
     "pkgutil-ns-2line": ("p/__init__.py", "from pkgutil import extend_path\n__path__ = extend_path(__path__, __name__)\n"),
     # a regular package two levels down, below a namespace sub-package, with a stub for its __init__
+    "p-stubs-initless": ("p-stubs/m.pyi", "y: int\n"),  # a stubs distribution without __init__.pyi (a namespace-like stubs package)
     "ns/pk/init": ("p/ns/pk/__init__.py", "t = 1\n"), "ns/pk/init.pyi": ("p/ns/pk/__init__.pyi", "t: int\n"), "ns/pk/mod": ("p/ns/pk/mod.py", "s = 1\n"),
 }
 NAMES = list(ENTRIES)
@@ -140,14 +141,14 @@ def cpython_walk(root):
     return out
 
 
-def griffe_load(griffe, root, order, by_path=None):
+def griffe_load(griffe, root, order, by_path=None, stubs=False):
     paths = [os.path.join(root, "s1"), os.path.join(root, "s2")]
     with listing.Listing(order) as lst:
         loader = griffe.GriffeLoader(search_paths=paths, allow_inspection=False)
         if by_path:
-            mod = loader.load(by_path, try_relative_path=True)
+            mod = loader.load(by_path, try_relative_path=True, find_stubs_package=stubs)
         else:
-            mod = loader.load("p", try_relative_path=False)
+            mod = loader.load("p", try_relative_path=False, find_stubs_package=stubs)
     return mod, lst.points
 
 
@@ -257,6 +258,33 @@ def run_layout(griffe, acc, layout):
         acc.states += 1
         acc.transitions += len(points)
         acc.traces += 1
+        # ---- the non-default option: with a `p-stubs` distribution next to it, the same layout loaded with find_stubs_package=True.  The stubs are merged in
+        # (or stand for the package when there is nothing else); every runtime module of the default load is still there, from the same file; nothing else is raised
+        if any(n.startswith("p-stubs") for n in names):
+            try:
+                mod_s, _pts = griffe_load(griffe, d, listing.ascending, stubs=True)
+                tree_s = tree_of(mod_s, d)
+                def _same(a, b):  # (a namespace package gains the stubs distribution's directory as one more portion)
+                    return set(a) <= set(b) if isinstance(a, list) and isinstance(b, list) else a == b
+
+                lost = sorted(k for k, t in tree.items() if not str(t["filepath"]).endswith(".pyi") and (k not in tree_s or not _same(t["filepath"], tree_s[k]["filepath"])))
+                if lost:
+                    acc.violation("stubs-option/runtime-module-lost", f"with find_stubs_package=True the runtime modules {lost} are gone or come from another file", cd, {"default": sorted(tree), "with_stubs": sorted(tree_s)}, size=size)
+                j_desc = None
+                try:
+                    j_desc = canon_json(griffe_load(griffe, d, listing.descending, stubs=True)[0], d)
+                except Exception as e:  # noqa: BLE001
+                    j_desc = "RAISE:" + type(e).__name__
+                if j_desc != canon_json(mod_s, d):
+                    acc.violation("stubs-option/order", "with find_stubs_package=True the tree depends on the listing order (ascending vs descending)", cd, None, size=size)
+            except (ImportError, griffe.LoadingError):
+                if found:
+                    acc.violation("stubs-option/not-found", "found by default, not found with find_stubs_package=True", cd, None, size=size)
+            except Exception as e:  # noqa: BLE001
+                import traceback
+
+                tb = traceback.extract_tb(e.__traceback__)
+                acc.violation(f"stubs-option/raise/{type(e).__name__}@{tb[-1].name}", f"load(find_stubs_package=True) raised {e!r}", cd, None, size=size)
         # ---- oracle 2: agreement with CPython's finders ------------------------------------------------------------------
         oracle2 = ref is not None
         ref = ref or {}
